@@ -353,6 +353,10 @@ def _gen_world(r, k):
                 'params': params, 'inputs': inputs, 'kind': kind, 'reads': reads, 'style': style,
                 'nlog': r.choice([0, 1, 2]), 'cont_steps': r.choice([1, 1, 2, 3]) if kind == 'cont' else 0,
             })
+            same_base = [c2 for c2 in cids if classes[c2]['base'] == base]
+            if same_base and r.random() < 0.12:
+                # python inheritance from another (concrete) task class of the pipeline; Meta and run are its own
+                classes[-1]['pybase'] = r.choice(same_base)
             cids.append(cid)
         pipelines.append({'classes': cids, 'slots': slots, 'twin': twin})
     # configs: 1-3 per pipeline, bottom-up so fills exist
